@@ -179,9 +179,9 @@ class UnionUnpackerBuilder(AbstractUnpackerBuilder):
 
     def _add_body(self, spec: ValueSpec, lines: CodeLines) -> None:
         if not spec.field_ctx.unpacker and self.method_name:
-            spec.field_ctx.unpacker = self._get_call_expr(
-                spec, self.method_name
-            )
+            # the method is remembered by name: a recursive occurrence of
+            # the union calls it with the expression it has at hand
+            spec.field_ctx.unpacker = self.method_name
         orig_lines = lines
         lines = CodeLines()
         if any(arg in (NoneType, None) for arg in self.union_args):
@@ -258,8 +258,9 @@ class UnionUnpackerBuilder(AbstractUnpackerBuilder):
         orig_lines.extend(lines)
 
     def _get_existing_method(self, spec: ValueSpec) -> Optional[str]:
-        if spec.owner is spec.type:
-            return spec.field_ctx.unpacker
+        if spec.owner is spec.type and spec.field_ctx.unpacker:
+            return self._get_call_expr(spec, spec.field_ctx.unpacker)
+        return None
 
 
 class TypeVarUnpackerBuilder(UnionUnpackerBuilder):
